@@ -8,6 +8,8 @@ from plasTeX.Base.LaTeX.Sectioning import SectionUtils
 
 class document(Environment, SectionUtils):
     level = Environment.DOCUMENT_LEVEL
+    # The body of the document always consists of paragraphs
+    forcePars = True
 
     @property
     def title(self):
